@@ -576,6 +576,7 @@ fn run_scenario(sc: &J) -> J {
         }
     };
     configure_gc(sc);
+    let mut compiled: Vec<yarel::memory::Root<yarel::object::ObjFunction>> = Vec::new();
     for p in programs {
         let kind = p.get("kind").and_then(|k| k.as_str()).unwrap_or("snippet");
         if kind == "newvm" {
@@ -611,6 +612,46 @@ fn run_scenario(sc: &J) -> J {
                     std::mem::forget(vm);
                     return finish(sc, outs);
                 }
+            }
+            continue;
+        }
+        if kind == "compile" {
+            // the host compiles a program now and keeps the function (a Root) to execute it later
+            let src = p.get("source").and_then(|k| k.as_str()).unwrap_or("").to_string();
+            let r = panic::catch_unwind(panic::AssertUnwindSafe(|| yarel::compiler::compile(&mut vm, src, None)));
+            let events = SIM.with(|s| std::mem::take(&mut s.borrow_mut().events));
+            let outcome = match r {
+                Ok(Ok(f)) => {
+                    compiled.push(f);
+                    json!({"compiled": compiled.len() - 1})
+                }
+                Ok(Err(e)) => json!({"err": format!("{:?}", e.kind()), "messages": e.messages()}),
+                Err(p) => json!({"panic": panic_msg(p)}),
+            };
+            let stop = outcome.get("panic").is_some();
+            outs.push(json!({"events": events, "outcome": outcome}));
+            if stop {
+                std::mem::forget(vm);
+                return finish(sc, outs);
+            }
+            continue;
+        }
+        if kind == "run" {
+            let slot = p.get("slot").and_then(|k| k.as_u64()).unwrap_or(0) as usize;
+            let r = panic::catch_unwind(panic::AssertUnwindSafe(|| compiled.get(slot).map(|f| vm.execute(f.clone(), &[]))));
+            let events = SIM.with(|s| std::mem::take(&mut s.borrow_mut().events));
+            let outcome = match r {
+                Ok(Some(Ok(_))) => json!({"ok": true}),
+                Ok(Some(Err(e))) => json!({"err": format!("{:?}", e.kind()), "messages": e.messages()}),
+                Ok(None) => json!({"no_such_slot": slot}),
+                Err(p) => json!({"panic": panic_msg(p)}),
+            };
+            let stop = outcome.get("panic").is_some();
+            outs.push(json!({"events": events, "outcome": outcome}));
+            if stop {
+                std::mem::forget(vm);
+                std::mem::forget(compiled);
+                return finish(sc, outs);
             }
             continue;
         }
@@ -667,7 +708,10 @@ fn run_scenario(sc: &J) -> J {
         }
     }
     let out = finish(sc, outs);
-    let _ = panic::catch_unwind(panic::AssertUnwindSafe(move || drop(vm)));
+    let _ = panic::catch_unwind(panic::AssertUnwindSafe(move || {
+        drop(compiled);
+        drop(vm)
+    }));
     out
 }
 
